@@ -64,18 +64,19 @@ CHECKS = {
             "DESIGN.md 4/C09"),
     'C02': ("differential testing (MPS eval vs exported fake-quantised network, bit-exact) over "
             "Hypothesis-generated networks, precision tuples and coefficients",
-            "Generated-input search: 2-D networks from the grammar with random precision tuples, "
+            "Generated-input search: 2-D and (1 in 4) 1-D networks from the grammar with random precision tuples, "
             "coefficient vectors (random arg-max, gaps >= 0.05), temperature, gumbel/hard flags and "
             "optionally a training forward first; oracle = torch.equal between MPS eval output and "
             "exported output on inputs straddling both clamps, exported precisions == summary(), "
             "and a consumer/producer precision rule checked on the exported fx graph by an "
-            "independent graph walk.",
+            "independent graph walk; a second input and a repeated call check that the exported network "
+            "is a pure function of its input.",
             "Per-layer weight search only (property domain); inputs sampled; CPU only.",
             "DESIGN.md 4/C02"),
     'C05': ("Hypothesis-generated networks/assignments; MPS cost vs exact bit-cost recomputed from "
             "summary() with a reference alive-feature propagation; probing CostSpec records what "
             "cost functions are shown",
-            "Generated-input search over per-layer and per-channel (with/without 0-bit) searches in "
+            "Generated-input search (2-D and 1-D networks) over per-layer and per-channel (with/without 0-bit) searches in "
             "eval and train+hard mode; oracle = from-scratch params_bit/ops_bit formulas driven "
             "only by summary() and the NetSpec (0-bit channels dead, propagated through "
             "add/flatten/depthwise), registered mpic/ne16 functions on exact per-precision specs, "
